@@ -31,6 +31,8 @@ ItemList == <<
     WithAs(It("a9", "singleton", 3, "a", "ctorerr"), <<"I0">>),       \* S3 as I0
     WithAs(It("a10", "singleton", 2, "b", "ctorerr"), <<"I0", "I1">>),\* S2 as I0, I1: collides with a9 on I0
     It("a11", "singleton", 0, "a", "inst"),                           \* instance value of S0
+    WithAs(It("a15", "scoped", 1, "b", "ctorerr"), <<"I0", "I1">>),   \* scoped S1 as I0, I1 (one instance per scope serves both)
+    WithName(With2(It("a16", "transient", 3, "a", "multierr"), 2)),   \* transient (S3 "k", S2)
     WithName(WithAs(It("a14", "singleton", 3, "b", "ctorerr"), <<"I0">>)),   \* S3 as I0 / "k"
     Bad(It("b1", "singleton", 0, "a", "ctorerr"), "nameandgroup"),
     Bad(It("b2", "singleton", 0, "a", "ctorerr"), "backquote"),
